@@ -296,7 +296,7 @@ def job_comb(cfg):
         if max(abs(x) for x in w) >= 1e15 * min(abs(x) for x in w if x):
             res.guard("vectors_with_magnitudes_spread_over_1e15")
         if A.unprobed_len:
-            res.nontrivial_values("unprobed", [float(A.unprobed_len)], 30)
+            res.guard("vectors_with_unprobed_intervals")
         if rank % 997 == 1:
             res.sample(dict(part="comb", weights=w, breakpoints=[float(b) for b in A.breakpoints],
                             counts_per_interval=[I["counts"] for I in A.intervals], robust_ties=A.ties))
@@ -363,6 +363,15 @@ def concat(results):
     return [np.concatenate([r[i] for r in results], axis=0) for i in range(nb)], np.concatenate([r[-1] for r in results])
 
 
+def judge_ranks(results, T, A, sel):
+    """judge() on the rank-ordered concatenation; per-rank outputs that cannot even be concatenated are a failure."""
+    try:
+        blocks, wts = concat(results)
+    except Exception as e:  # noqa: BLE001
+        return None, ["rank-outputs-malformed"], dict(error="%s: %s" % (type(e).__name__, str(e)[:200]))
+    return judge(blocks, wts, T, A, sel)
+
+
 def decoys(z, R):
     """Offsets handed to ranks > 0 (must be ignored by the algorithm): far from rank 0's."""
     out = [z]
@@ -403,8 +412,7 @@ def job_mpi(cfg):
                     if ex.status != "complete":
                         res.violation("%s:%s" % (FN[impl], ex.violation["kind"]), case, dict(ex.violation, trace=ex.trace))
                         continue
-                    blocks, wts = concat(ex.results)
-                    tags, fails, detail = judge(blocks, wts, T, A, I["sel"])
+                    tags, fails, detail = judge_ranks(ex.results, T, A, I["sel"])
                     for f in fails:
                         res.violation("%s:%s[R>1]" % (FN[impl], f), case, detail)
                     skeletons.setdefault(impl, set()).add(repr(ex.world.skeleton))
@@ -413,11 +421,11 @@ def job_mpi(cfg):
                 res.guard("multi_rank_comb_events_that_duplicated_a_walker")
             if any(I["sel"][k] // n != k // n for k in range(N)):
                 res.guard("multi_rank_comb_events_moving_a_walker_to_another_rank")
+    import hashlib
+
     for impl, s in skeletons.items():
-        if len(s) > 1:
-            res.cap("%s R=%d: the sequence of collectives depends on the data (%d skeletons); schedule exploration on "
-                    "representative inputs does not cover all of them" % (FN[impl], R, len(s)))
-        res.guard("collective_skeletons_observed_R%d_%s" % (R, impl), len(s))
+        for sk in s:  # one guard key per distinct skeleton; run() demands exactly one per (R, n, impl)
+            res.guard("skeleton:R%d:n%d:%s:%s" % (R, n, impl, hashlib.sha1(sk.encode()).hexdigest()[:8]))
     return res
 
 
@@ -457,13 +465,13 @@ def explore_one(res, impl, R, n, w, z, T, modes, prune, bound, seed, max_exec=No
     if not rep.exhaustive and not rep.violations:
         res.cap("%s R=%d modes=%s prune=%s bound=%s: stopped after %d executions" % (FN[impl], R, modes, prune, bound, nexec))
     if bound is not None:
-        res.cap("%s R=%d modes=%s: schedules with more than %d preemptions not explored in this configuration" % (FN[impl], R, "/".join(modes), bound))
+        res.note("%s R=%d modes=%s: this configuration is bounded to <= %d preemptions (the unbounded space is covered by the "
+                 "pruned configurations)" % (FN[impl], R, "/".join(modes), bound))
     for v in rep.violations[:1]:
         res.violation("%s:%s" % (FN[impl], v["kind"]), dict(base, choices=v["choices"]), dict(kind=v["kind"], detail=v.get("detail"), trace=v["trace"]))
     outs = list(rep.outcomes.items())
     for d, o in outs:
-        blocks, wts = concat(o["results"])
-        tags, fails, detail = judge(blocks, wts, T, A, sel)
+        tags, fails, detail = judge_ranks(o["results"], T, A, sel)
         for f in fails:
             res.violation("%s:%s[R>1]" % (FN[impl], f), dict(base, choices=o["choices"]), detail)
     if len(outs) > 1:
@@ -518,16 +526,15 @@ def replay_mpi(case):
         ex = schedmc.run_default(R, body, case["send_mode"])
     else:
         exp = schedmc.Explorer(R, body, send_modes=tuple(case["send_modes"]))
-        ex = exp.run_schedule([int(c) for c in np.asarray(case["choices"]).tolist()])
+        ex = exp.run_recorded([int(c) for c in np.asarray(case["choices"]).tolist()])
         if case.get("choices2") is not None:
-            ex2 = exp.run_schedule([int(c) for c in np.asarray(case["choices2"]).tolist()])
+            ex2 = exp.run_recorded([int(c) for c in np.asarray(case["choices2"]).tolist()])
             if ex.status == ex2.status == "complete":
                 d1, d2 = schedmc.outcome_digest(ex.results), schedmc.outcome_digest(ex2.results)
                 return d1 != d2, dict(outcome1=d1, outcome2=d2)
     if ex.status != "complete":
         return True, dict(ex.violation, trace=ex.trace)
-    blocks, wts = concat(ex.results)
-    tags, fails, detail = judge(blocks, wts, T, A, sel)
+    tags, fails, detail = judge_ranks(ex.results, T, A, sel)
     return bool(fails), dict(detail, failures=fails)
 
 
@@ -662,7 +669,64 @@ def job_wrap(cfg):
                 for d, o in list(rep.outcomes.items())[:1]:
                     judge_wrapper_threads(res, sig, case, o["results"], T, A, w, ks, restricted, R, n)
     nac_ops(res, seed)
+    explorer_selftest(res)
     return res
+
+
+def explorer_selftest(res):
+    """The explorer must find planted defects (vacuity guard of the schedmc part): a rank skipping a
+    collective (deadlock), ranks calling different collectives (mismatch), swapped buffers (buffer mismatch) and
+    a result that depends on the interleaving through hidden shared state (more than one outcome)."""
+    def skip(r, comm):
+        if r == 0:
+            comm.Barrier()
+        return r
+
+    def mism(r, comm):
+        buf = np.zeros(2)
+        if r == 0:
+            comm.Bcast(buf, root=0)
+        else:
+            comm.Scatter(None, buf, root=0)
+        return r
+
+    def swapped(r, comm):
+        a, b = np.zeros(1), np.zeros(3)
+        comm.Scatter(np.zeros(2) if r == 0 else None, a if r == 0 else b, root=0)
+        return r
+
+    def race(r, comm):
+        shared = comm.world.__dict__.setdefault("shared", [])
+        comm.Barrier()
+        shared.append(r)
+        comm.Barrier()
+        return list(shared)
+
+    for name, body, want in (("deadlock", skip, "deadlock"), ("mismatch", mism, "collective-mismatch"),
+                             ("buffer", swapped, "buffer-mismatch")):
+        rep = schedmc.Explorer(2, body).explore()
+        if not rep.violations or rep.violations[0]["kind"] != want:
+            raise HarnessError("explorer self-test: planted %s not reported (%r)" % (name, rep.violations[:1]))
+        res.guard("explorer_selftest_planted_%s_found" % name)
+    rep = schedmc.Explorer(2, race).explore()
+    if len(rep.outcomes) < 2:
+        raise HarnessError("explorer self-test: planted interleaving-dependent outcome not seen")
+    res.guard("explorer_selftest_planted_race_outcomes", len(rep.outcomes))
+    rp = schedmc.Explorer(3, race).explore()
+    if len(rp.outcomes) != 6:
+        raise HarnessError("explorer self-test: %d of 6 arrival orders of 3 ranks seen" % len(rp.outcomes))
+    res.add(states=rep.schedules + rp.schedules, traces=rep.schedules + rp.schedules)
+    # visited-state pruning must reach exactly the states the unpruned search reaches (on the real rank bodies)
+    T = Tagged(2, 0)
+    w = rep_inputs(0, 2, 1)[0]
+    body = make_body("mpi_uhf", rank_inputs(T, w, 2, 1), decoys(0.5, 2))
+    full = schedmc.Explorer(2, body, track_states=True)
+    full.explore(verify=False)
+    cut = schedmc.Explorer(2, body, prune=True)
+    rc = cut.explore(verify=False)
+    if full.state_set != cut.state_set or not rc.pruned:
+        raise HarnessError("explorer self-test: pruned search visits %d states, unpruned %d" % (len(cut.state_set), len(full.state_set)))
+    res.guard("explorer_selftest_pruned_equals_unpruned_state_set", len(cut.state_set))
 
 
 def call_wrapper(prop, which, pd, restricted):
@@ -708,8 +772,7 @@ def judge_wrapper_threads(res, sig, case, results, T, A, w, ks, restricted, R, n
     if any(abs(Fraction(z) - b) < combmc.DELTA for b in A.breakpoints):
         return
     sel, _ = A.counts_at(z)
-    blocks, wts = concat([r[:-1] for r in results])
-    tags, fails, detail = judge(blocks, wts, T, A, sel)
+    tags, fails, detail = judge_ranks([r[:-1] for r in results], T, A, sel)
     for f in fails:
         res.violation(sig + ":" + ("not-the-serial-comb-with-rank-0-offset" if f == "differs-from-serial-comb" else f) + "[R>1]", case, dict(detail, zeta=z))
     zo = float(jax.random.uniform(jax.random.split(jax.random.PRNGKey(ks + 1))[1]))
@@ -794,7 +857,7 @@ def replay_wrap(case):
         body = wrapper_body(prop, T, w, ks, restricted, n)
         exp = schedmc.Explorer(R, body, send_modes=vcomm.SEND_MODES)
         if case.get("choices") is not None:
-            ex = exp.run_schedule([int(c) for c in np.asarray(case["choices"]).tolist()])
+            ex = exp.run_recorded([int(c) for c in np.asarray(case["choices"]).tolist()])
         else:
             ex = schedmc.run_default(R, body, "eager")
         if ex.status != "complete":
@@ -823,9 +886,10 @@ def comb_jobs(tier, seed):
     nmax = 6 if thorough else 5
     for N in range(1, nmax + 1):
         # both communicators (not_a_comm, R=1 virtual world) for both MPI variants up to N=4; beyond, one each,
-        # and at the largest N of the tier the MPI variants (same formula as _np) skip the +-delta end probes
+        # and for N >= 5 the +-delta end probes run on the two formula variants only (jitted: total*(k+zeta)/N,
+        # NumPy: ((k+zeta)/N)*total); _uhf shares the jitted formula, the MPI variants the NumPy one
         impls = SERIAL_IMPLS if N <= 4 else ["jit", "jit_uhf", "np", "mpi/v1", "mpi_uhf/nac"]
-        mid_only = ["mpi/v1", "mpi_uhf/nac"] if N >= 5 else []
+        mid_only = ["jit_uhf", "mpi/v1", "mpi_uhf/nac"] if N >= 5 else []
         for first in itertools.product(range(7), repeat=max(0, N - 3)):
             jobs.append(dict(part="comb", N=N, first=list(first), nlet=7, seed=seed, impls=impls, mid_only=mid_only))
     if thorough:
@@ -841,11 +905,11 @@ def mpi_jobs(tier, seed):
     jobs = []
     thorough = tier == "thorough"
     plan = [(2, 1, 7), (2, 2, 7), (3, 1, 7), (4, 1, 7)]
-    if thorough:
-        plan += [(2, 3, 7), (3, 2, 7), (4, 2, 5)]
+    if thorough:  # larger equal partitions on the 5-letter / 3-letter sub-alphabets
+        plan += [(2, 3, 5), (3, 2, 5), (4, 2, 3)]
     for R, n, nlet in plan:
         N = R * n
-        split = max(0, N - 3) if nlet == 7 else max(0, N - 5)
+        split = {7: max(0, N - 3), 5: max(0, N - 4), 3: max(0, N - 6)}[nlet]
         for first in itertools.product(range(nlet), repeat=split):
             jobs.append(dict(part="mpi", R=R, n=n, nlet=nlet, first=list(first), seed=seed, impls=["mpi", "mpi_uhf"],
                              probes="all" if (thorough and N <= 4) else "mid"))
@@ -884,8 +948,24 @@ def sched_jobs(tier, seed):
         add(4, 1, "mpi_uhf", M, True, None, 1, 1)
         add(4, 2, "mpi", M, True, None, 1, 1)
         add(4, 1, "mpi", E, False, 2, 1, 1)
-        add(4, 1, "mpi", Z, False, 2, 1, 1)
+        add(4, 1, "mpi", Z, False, 1, 1, 1)
     return J
+
+
+def job_priority(j):
+    """Simplest first (the pool hands jobs out in this order and the first violations of a signature are the
+    ones kept), except that the few long single jobs start before the bulk so they do not form a tail."""
+    part = j["part"]
+    if part == "comb":
+        return (0 if j["N"] <= 3 else 4 + j["N"], j["N"], j["first"])
+    if part == "wrap":
+        return (1, 0, [])
+    if part == "sched":
+        return (1 if j["R"] == 2 else 3, j["R"] * j["n"], [])
+    if part == "mpi":
+        N = j["R"] * j["n"]
+        return (2 if N <= 3 else 4 + N, N, j["first"])
+    return (3, 9, [])  # driver
 
 
 JOBS = {}
@@ -911,21 +991,36 @@ def run(ctx):
     ctx.assume("virtual MPI: collectives matched by per-rank sequence number; a send's deposit is a left-mover (only enables "
                "others); eager and rendezvous completion are the two send behaviours explored; data copied at deposit")
     seed, tier = ctx.seed, ctx.tier
-    jobs = sched_jobs(tier, seed) + [dict(part="wrap", seed=seed, sizes=[4] if tier == "quick" else [4, 7],
-                                          nkeys=12 if tier == "quick" else 48, nkeys_global=4 if tier == "quick" else 16,
-                                          nvec_r2=1 if tier == "quick" else 2, nkeys_r2=2 if tier == "quick" else 6)]
+    jobs = sched_jobs(tier, seed) + comb_jobs(tier, seed) + mpi_jobs(tier, seed)
+    jobs.append(dict(part="wrap", seed=seed, sizes=[4] if tier == "quick" else [4, 7],
+                     nkeys=12 if tier == "quick" else 48, nkeys_global=4 if tier == "quick" else 16,
+                     nvec_r2=1 if tier == "quick" else 2, nkeys_r2=2 if tier == "quick" else 6))
     if tier == "thorough":
         jobs += driver_jobs(seed)
-    jobs += sorted(comb_jobs(tier, seed) + mpi_jobs(tier, seed), key=lambda j: -(j.get("N", 0) + j.get("R", 0) * j.get("n", 0)))
+    jobs.sort(key=job_priority)
     ctx.pmap(job, jobs, workers=min(ctx.workers, WORKERS))
     ctx.violations.sort(key=case_key)
+    # the sequence of collectives (kinds, roots, buffer shapes) must not depend on the data: that is what lets the
+    # schedule exploration on representative inputs speak for all inputs of the same (R, n, implementation)
+    groups = {}
+    for k in [k for k in ctx.guards if k.startswith("skeleton:")]:
+        groups.setdefault(k.rsplit(":", 1)[0], []).append(k)
+        del ctx.guards[k]
+    for g, ks in sorted(groups.items()):
+        ctx.guards["data_independent_collective_sequences"] = ctx.guards.get("data_independent_collective_sequences", 0) + (len(ks) == 1)
+        if len(ks) > 1:
+            ctx.cap("%s: the sequence of collectives depends on the data (%d different sequences observed); schedules were "
+                    "explored on representative inputs only" % (g, len(ks)))
     ctx.require_guard("comb_events_that_duplicated_a_walker", "robust_exact_ties_probed", "vectors_with_zero_weight_walkers",
                       "vectors_with_negative_weights", "vectors_with_magnitudes_spread_over_1e15",
                       "multi_rank_comb_events_moving_a_walker_to_another_rank", "runs_where_a_decoy_offset_would_change_the_comb",
                       "schedules_completed_R2", "schedules_completed_R3", "schedules_completed_R4",
+                      "data_independent_collective_sequences",
                       "distinct_arrival_orders_R3", "free_running_cross_checks", "wrapper_calls",
                       "wrapper_calls_where_any_other_subkey_would_change_the_comb", "wrapper_schedules_completed_R2",
-                      "not_a_comm_operations_compared")
+                      "not_a_comm_operations_compared", "explorer_selftest_planted_deadlock_found",
+                      "explorer_selftest_planted_mismatch_found", "explorer_selftest_planted_buffer_found",
+                      "explorer_selftest_planted_race_outcomes")
 
 
 # ----------------------------------------------------------------------------- part: driver (thorough)
@@ -1048,7 +1143,7 @@ def job_driver(cfg):
     res.add(states=nexec, transitions=rep.transitions, traces=nexec)
     res.guard("driver_schedules_completed", rep.schedules)
     res.guard("driver_distinct_arrival_orders", len(rep.arrival_orders))
-    res.cap("driver.afqmc R=%d %s sends: schedules with more than %d preemption(s) not explored" % (R, mode, cfg["bound"]))
+    res.note("driver.afqmc on R=%d rank threads: bound = all schedules with <= %d preemption(s), eager-only and rendezvous-only sends" % (R, cfg["bound"]))
     if not rep.exhaustive and not rep.violations:
         res.cap("driver.afqmc R=%d %s sends: stopped after %d executions" % (R, mode, nexec))
     for v in rep.violations[:1]:
@@ -1080,10 +1175,10 @@ def replay_driver(case):
     os.chdir(d)
     try:
         with contextlib.redirect_stdout(io.StringIO()):
-            ex = exp.run_schedule([int(c) for c in np.asarray(case["choices"]).tolist()])
+            ex = exp.run_recorded([int(c) for c in np.asarray(case["choices"]).tolist()])
             ex2 = None
             if case.get("choices2") is not None:
-                ex2 = exp.run_schedule([int(c) for c in np.asarray(case["choices2"]).tolist()])
+                ex2 = exp.run_recorded([int(c) for c in np.asarray(case["choices2"]).tolist()])
     finally:
         os.chdir(cwd)
         shutil.rmtree(d, ignore_errors=True)
